@@ -9,7 +9,7 @@ from __future__ import annotations
 
 import ast
 
-from ..astutil import deref, ancestors, calls_in, dotted, enclosing_stmt, src, walk_local
+from ..astutil import kwarg, deref, ancestors, calls_in, dotted, enclosing_stmt, src, walk_local
 from ..loader import AnalysisError
 from ..terms import NONE, Evaluator, alts, contains, find, show, strip_sites, walk
 from .c12 import _delegates
@@ -243,6 +243,47 @@ def _shortfall_shape(f, pause_call, m, limit):
     return all(cfg.set_dominates(n0, x_) for x_ in nw) and all(cfg.set_dominates(nw, x_) for x_ in n1) and s0 is not sw and s1 is not sw
 
 
+def r3b_transfer_unit_respected(ctx):
+    """the helpers that read a stream in pieces use the piece size their caller chose (`chunk_size`): the commands size it
+    to the limit, so a helper that substitutes its own constant makes every read owe more than the debt cap can hold"""
+    corpus = ctx.corpus
+    ut = corpus.module('utils')
+    n = 0
+    for f in ut.all_functions:
+        params = [a.arg for a in f.node.args.posonlyargs + f.node.args.args + f.node.args.kwonlyargs]
+        if 'chunk_size' not in params or f.parent is not None:
+            continue
+        ctx.analysed(f)
+        bad = None
+        for c in ast.walk(f.node):
+            if not isinstance(c, ast.Call):
+                continue
+            if isinstance(c.func, ast.Attribute) and c.func.attr in ('read', 'read1', 'readinto') and c.args:
+                n += 1
+                a = deref(f.node, c.args[0])
+                if not (isinstance(a, ast.Name) and a.id == 'chunk_size'):
+                    bad = bad or c
+            callee = ut.functions.get(dotted(c.func) or '')
+            if callee is not None and 'chunk_size' in [x.arg for x in callee.node.args.posonlyargs + callee.node.args.args + callee.node.args.kwonlyargs]:
+                n += 1
+                cp = [x.arg for x in callee.node.args.posonlyargs + callee.node.args.args]
+                passed = kwarg(c, 'chunk_size')
+                if passed is None and 'chunk_size' in cp and len(c.args) > cp.index('chunk_size'):
+                    passed = c.args[cp.index('chunk_size')]
+                passed = deref(f.node, passed) if passed is not None else None
+                if not (isinstance(passed, ast.Name) and passed.id == 'chunk_size'):
+                    bad = bad or c
+        ctx.check(
+            bad is None,
+            'C20.R3',
+            f'{func_label(f)}|piece-size-is-the-callers',
+            loc(f, bad) if bad is not None else loc(f, f.node),
+            f'{f.name}: every read / delegated read uses the `chunk_size` this function was given',
+            f'{f.name}: `{src(bad, 60) if bad is not None else ""}` does not use the `chunk_size` argument: streams are read in units the command did not choose, a single read can owe more than the capped debt and the excess is forgiven - the limit is exceeded',
+        )
+    ctx.floor('C20.R3', 'piece-size uses in the chunk iterators', n, 2)
+
+
 def r5_wrapper(ctx):
     corpus = ctx.corpus
     w = corpus.cls('utils', '_RateLimitedFileWrapper')
@@ -299,6 +340,7 @@ def r5_wrapper(ctx):
 
 def run(ctx):
     r1_r3(ctx)
+    r3b_transfer_unit_respected(ctx)
     r2_one_limiter(ctx)
     r4_debt_lock(ctx)
     r5_wrapper(ctx)
